@@ -161,11 +161,20 @@ def documents(draw: Any, kind: str = 'function', fmt_family: str = 'markup', max
     if fmt_family == 'sections' and draw(st.integers(0, 2)) == 0:
         for nm in draw(st.lists(st.sampled_from(['Engine', 'Engine.start']), min_size=1, max_size=2, unique=True)):
             seealso.append({'name': nm, 'words': c.words(draw(st.integers(2, 4))), 'colon': draw(st.sampled_from([0, 0, 1, 2]))})
+    # a description may begin with punctuation that a field separator is also made of ("-1 means ...", "--verbose sets ...")
+    if fmt_family == 'markup':
+        for x in fields:
+            if x['tag'] in ('param', 'keyword', 'raise', 'note', 'ivar', 'cvar') and not x.get('lit') and draw(st.integers(0, 4)) == 0:
+                x['lead'] = draw(st.sampled_from(['-', '--', ':', '-:', ':-']))
+    # reStructuredText: the parameters written as one consolidated field holding a bullet list or a definition list
+    consolidated = None
+    if fmt_family == 'markup' and not epytext and any(x['tag'] == 'param' and not x.get('lit') for x in fields) and draw(st.integers(0, 2)) == 0:
+        consolidated = {'form': draw(st.sampled_from(['bullet', 'bullet', 'deflist'])), 'sep': draw(st.sampled_from([': ', ' - ', ' : ', '- ', ' -- ']))}
     # the field that gives the type may be written before the field that gives the description
     for x in fields:
         if x.get('type') and fmt_family == 'markup' and draw(st.integers(0, 2)) == 0:
             x['type_first'] = True
-    return {'blocks': blocks, 'fields': fields, 'kind': kind, 'seealso': seealso}
+    return {'blocks': blocks, 'fields': fields, 'kind': kind, 'seealso': seealso, 'consolidated': consolidated}
 
 
 # ------------------------------------------------------------------ expected visible content
@@ -307,6 +316,11 @@ def seealso_tokens(doc: Dict[str, Any]) -> List[str]:
     return [t for e in doc.get('seealso') or [] for t in e['words']]
 
 
+def field_text(x: Dict[str, Any]) -> str:
+    """The description of a field as written (markup family): its words, possibly led by punctuation."""
+    return (x.get('lead') or '') + ' '.join(x['words'])
+
+
 def serialise(doc: Dict[str, Any], fmt: str) -> str:
     text = _serialise(doc, fmt)
     if fmt in ('google', 'numpy') and doc.get('seealso'):
@@ -331,8 +345,23 @@ def _serialise(doc: Dict[str, Any], fmt: str) -> str:
         def fl(tag: str, arg: Optional[str], text: str) -> str:
             head = tag + ((' ' + arg) if arg else '')
             return ('@%s: %s' if fmt == 'epytext' else ':%s: %s') % (head, text)
+        cons = doc.get('consolidated') if fmt == 'restructuredtext' else None
+        if cons:
+            ps = [x for x in f if x['tag'] == 'param' and not x.get('lit')]
+            lines.append(':Parameters:')
+            for x in ps:
+                if cons['form'] == 'bullet':
+                    lines.append('  - `%s`%s%s' % (x['arg'], cons['sep'], field_text(x)))
+                else:
+                    lines.append('    %s%s' % (x['arg'], (' : ' + ' '.join(x['type'])) if x.get('type') else ''))
+                    lines.append('        ' + field_text(x))
+            lines.append('')
         for x in f:
             tag = x.get('name') if x['tag'] == 'unknown' else x['tag']
+            if cons and x['tag'] == 'param' and not x.get('lit'):
+                if x.get('type') and cons['form'] == 'bullet':
+                    lines.append(fl('type', x['arg'], ' '.join(x['type'])))
+                continue
             if x.get('lit') and fmt != 'epytext':
                 if x['lit']['after']:
                     lines.append(fl(tag, x['arg'], ' '.join(x['words']) + '::'))
@@ -342,7 +371,7 @@ def _serialise(doc: Dict[str, Any], fmt: str) -> str:
                     lines.append('  ' + ' '.join(x['words']) + '::')
                 lines += _lit_lines(x['lit'], 2)
             else:
-                lines.append(fl(tag, x['arg'], ' '.join(x['words'])))
+                lines.append(fl(tag, x['arg'], field_text(x)))
             if x.get('type'):
                 ttag = {'param': 'type', 'keyword': 'type', 'return': 'rtype', 'ivar': 'type', 'cvar': 'type', 'yield': 'ytype'}[x['tag']]
                 tline = fl(ttag, x['arg'] if ttag == 'type' else None, ' '.join(x['type']))
